@@ -85,3 +85,23 @@ Theorem C06_certificate_checker_is_the_specification :
     ~ GraphProofs.has_cycle T /\ GraphProofs.network_spec m n M T C).
 Proof. exact GraphComplete.check_network_cert_iff. Qed.
 Print Assumptions C06_certificate_checker_is_the_specification.
+
+(* ---------- network matrices as defined by certificates (NetworkClosure.NetworkP: some forest T and non-forest arcs C satisfy the
+   signed path specification) are closed under the operations of C10: permutations, +-1 scaling of lines (arc reversal), zero / unit /
+   (negated) duplicated lines, submatrices (contraction of tree arcs) ---------- *)
+From Cmr Require NetworkClosure.
+Theorem C06_certified_matrices_are_network :
+    forall (m n : nat) (M : mat) (G : GraphModel.graph) (rev f c : list nat),
+    GraphModel.check_network_cert m n M G rev f c = true -> NetworkClosure.NetworkP m n M.
+Proof. exact NetworkClosure.cert_NetworkP. Qed.
+Print Assumptions C06_certified_matrices_are_network.
+Theorem C06_network_submatrix :
+    forall (m n : nat) (M : mat) (rs cs : list nat),
+    wf_mat m n M = true ->
+    strictly_increasing rs = true ->
+    strictly_increasing cs = true ->
+    all_lt m rs = true ->
+    all_lt n cs = true ->
+    NetworkClosure.NetworkP m n M -> NetworkClosure.NetworkP (length rs) (length cs) (submat M rs cs).
+Proof. exact NetworkClosure.NetworkP_submat. Qed.
+Print Assumptions C06_network_submatrix.
